@@ -58,6 +58,9 @@ func isAddErrorOf(info *types.Info, call *ast.CallExpr, errObj types.Object) boo
 
 func checkC09(c *Ctx) {
 	p := c.P
+	// a key supplied through Model() or through the deleted value is a condition: both delete builders must pick it up,
+	// otherwise the chain is rejected although it supplied one (same rule as C02.pk-sources)
+	checkPkSources(c, c.Rule("C09.pk-sources", "both delete builders turn the key of the deleted value AND of Model() into WHERE conditions (a chain that supplies a key is not rejected)", 2))
 	execs, _ := executorSet(p)
 	guards := missingWhereGuards(p)
 	if len(guards) == 0 {
